@@ -433,7 +433,7 @@ def main():
         jobs = [j for u in units for j in u.jobs]
         # longest first
         jobs.sort(key=lambda j: -j.timeout)
-        with ThreadPoolExecutor(max_workers=max(2, NCPU // 2)) as ex:
+        with ThreadPoolExecutor(max_workers=NCPU) as ex:
             def rj(j):
                 try:
                     r = run_job(plan, j, tier)
